@@ -122,6 +122,39 @@ import itertools
 import re
 
 
+_BARE = re.compile(r"(?<![A-Za-z0-9_.@$'])[a-z_][a-z0-9_]*(?![A-Za-z0-9_.(':])")
+
+
+def _bare_names(v, out, want=None):
+    """operands that are a bare identifier (a local the evaluator named because it could not see what it holds), at
+    any depth of tuples / structs / options / format pieces and inside function atoms; parts the reference leaves
+    open (`?`) are not looked at"""
+    if v is None:
+        return
+    if want is not None and not A.is_form(want) and want[0] == "any":
+        return
+    if A.is_form(v):
+        for k in v:
+            if isinstance(k, str):
+                out.update(x for x in _BARE.findall(k) if x not in ("true", "false"))
+        return
+    sub = (lambda key: None) if want is None or A.is_form(want) or want[0] != v[0] else None
+    if v[0] in ("tup", "fmt", "early"):
+        ws = want[1] if (want is not None and not A.is_form(want) and want[0] == v[0] and len(want[1]) == len(v[1])) else [None] * len(v[1])
+        for x, w in zip(v[1], ws):
+            if not isinstance(x, str):
+                _bare_names(x, out, w if not isinstance(w, str) else None)
+    elif v[0] in ("struct", "match"):
+        wd = want[1] if (want is not None and not A.is_form(want) and want[0] == v[0]) else {}
+        for kk, x in v[1].items():
+            _bare_names(x, out, wd.get(kk))
+    elif v[0] == "some":
+        _bare_names(v[1], out, want[1] if (want is not None and not A.is_form(want) and want[0] == "some") else None)
+    elif v[0] == "if":
+        _bare_names(v[1], out)
+        _bare_names(v[2], out)
+
+
 def _symbols(v, out):
     if v is None:
         return
@@ -214,9 +247,17 @@ def match_modulo(got_by_case, want_by_case, roles, fixed_prefixes=("box.", "$"))
                 best = (dict(ren, **oren), bad, oren, dict(zip(s_roles, perm)))
     if best is None:
         return None, "no candidate renaming"
-    if len(scalars) > len(s_roles) + 0 and any(re.fullmatch(r"[a-z_][a-z0-9_]*", x) for x in scalars[len(s_roles):] if x not in ref_tokens):
-        # the code's value mentions plain local names the evaluator could not trace to an input: not a definite value
-        match_modulo.untraced = [x for x in scalars if re.fullmatch(r"[a-z_][a-z0-9_]*", x) and x not in ref_tokens]
+    bare = set()
+    for cname, g in got_by_case.items():
+        try:
+            w = A.ref(want_by_case[cname])
+        except ValueError:
+            w = None
+        _bare_names(g, bare, w)
+    bare = sorted(x for x in bare if x not in ref_tokens and not x.startswith(fixed_prefixes))
+    if len(bare) > len(s_roles):
+        # the code's value has plain local names as operands - values the evaluator could not trace to an input
+        match_modulo.untraced = bare
     ren, bad, oren, sren = best
     def _refcanon(c):
         try:
@@ -261,7 +302,7 @@ def _case_value(prog, ent, case_name, case):
     opaque = list(ent.get("opaque", ()))
     if ent.get("opaque_prefix"):
         opaque += [q for q in A.Evaluator(prog).by_path if q.startswith(ent["opaque_prefix"])]
-    ev = A.Evaluator(prog, presets=presets, type_alias=ent.get("alias", {}), watch=(ent.get("watch", "-"),), opaque=opaque, name_case=name_case, transparent=ent.get("transparent", ("fstr",)), iflet=(case.get("iflet") if isinstance(case, dict) else None) or ent.get("iflet"), absent=(case.get("absent", ()) if isinstance(case, dict) else ()), present=(case.get("present") if isinstance(case, dict) else None), script=_script((case.get("script") if isinstance(case, dict) else None) or ent.get("script")), keep_early_none=bool(ent.get("keep_early_none")), attr_values=(case.get("values") if isinstance(case, dict) else None))
+    ev = A.Evaluator(prog, presets=presets, type_alias=ent.get("alias", {}), watch=(ent.get("watch", "-"),), opaque=opaque, name_case=name_case, transparent=ent.get("transparent", ("fstr",)), iflet=(case.get("iflet") if isinstance(case, dict) else None) or ent.get("iflet"), absent=(case.get("absent", ()) if isinstance(case, dict) else ()), present=(case.get("present") if isinstance(case, dict) else None), script=_script((case.get("script") if isinstance(case, dict) else None) or ent.get("script")), keep_early_none=bool(ent.get("keep_early_none")), attr_values=(case.get("values") if isinstance(case, dict) else None), keyed_watch=(ent.get("collect") == "keyed"))
     h = ev.by_path.get(ent["function"])
     argv = None
     if isinstance(case, dict) and case.get("args"):
